@@ -471,7 +471,7 @@ pub fn run(ctx: &Ctx) -> i32 {
         };
     }
     let tier = ctx.tier;
-    let n: u32 = tier.pick(20_000, 1_000_000);
+    let n: u32 = tier.pick(100_000, 2_000_000);
     let nshards = 64usize;
     let stats = par_shards(ctx, nshards, |shard| {
         let w = Worker::new(ctx);
